@@ -14,6 +14,7 @@ func init() {
 		Units: []Unit{
 			{Name: "protocols", Quick: 3000, Thorough: 150000, Run: c04Protocols},
 			{Name: "exhaustive-nextmany-buffers", ExhaustiveN: func(string) int { return 36 * 256 }, RunIndexed: c04ExhMany},
+			{Name: "protocols-over-unions-of-adjacent-pieces", Quick: 2500, Thorough: 100000, Run: c04OverResults},
 		},
 	})
 }
@@ -647,4 +648,147 @@ func (c *mcursor) next() (uint64, bool) {
 		c.x++
 	}
 	return v, true
+}
+
+// c04OverResults drives the iteration protocols over bitmaps that are RESULTS of unions whose operands are
+// pieces lying next to each other inside one chunk (touching, overlapping by one, one apart, interleaved),
+// in every kind pairing and operand order, static and in place (the in-place receiver keeps the spare
+// capacity its tables got from being built piece by piece). The protocols rely on representation invariants
+// (runs sorted, disjoint, non-adjacent) that the algebra has to re-establish on exactly such inputs.
+func c04OverResults(c *Ctx) {
+	r := c.R
+	key := genKeys(r, 1)[0]
+	base := key << 16
+	// lower piece L ends at e, upper piece U starts at e+delta
+	e := r.Range(3, 60000)
+	delta := []uint64{1, 1, 1, 0, 2}[r.Intn(5)]
+	mkLower := func() *ISet {
+		s := NewISet()
+		switch r.Intn(4) {
+		case 0:
+			s.Add(e) // single value
+		case 1:
+			s.AddRange(e-minU(e, r.Range(1, 400)), e) // one run ending at e
+		case 2:
+			s.Add(e)
+			for i := 0; i < 1+r.Intn(6); i++ {
+				s.Add(r.Range(0, e))
+			}
+		default:
+			s.AddRange(e-minU(e, r.Range(0, 30)), e)
+			lo := e - minU(e, r.Range(40, 900))
+			s.AddRange(lo, lo+r.Range(0, 8))
+		}
+		return s
+	}
+	mkUpper := func() *ISet {
+		s := NewISet()
+		st := e + delta
+		switch r.Intn(3) {
+		case 0:
+			s.AddRange(st, st+r.Range(0, 3000))
+		case 1:
+			s.AddRange(st, st+r.Range(0, 40))
+			x := st + 60 + r.Range(0, 500)
+			s.AddRange(x, x+r.Range(0, 100))
+			x += 200 + r.Range(0, 500)
+			s.AddRange(x, x+r.Range(0, 100))
+		default:
+			s.Add(st)
+			for i := 0; i < r.Intn(5); i++ {
+				s.Add(st + r.Range(2, 4000))
+			}
+		}
+		return ivsToSet(s.Restrict(0, 65535).iv)
+	}
+	L, U := mkLower(), mkUpper()
+	sh := func(s *ISet) *ISet { return ivsToSet(shiftIVs(s.iv, base)) }
+	mL, mU := sh(L), sh(U)
+	want := mL.Or(mU)
+	// builders: piece by piece (append growth), ranges as runs, optionally run-optimized
+	mk := func(m *ISet, style int) *roaring.Bitmap {
+		b := roaring.New()
+		for _, v := range m.Intervals() {
+			if v.Lo == v.Hi && style != 2 {
+				b.Add(uint32(v.Lo))
+			} else {
+				b.AddRange(v.Lo, v.Hi+1)
+			}
+		}
+		if style == 1 {
+			b.RunOptimize()
+		}
+		return b
+	}
+	sL, sU := r.Intn(3), r.Intn(3)
+	c.Step("lower piece %v (style %d), upper piece %v (style %d), delta=%d", descSet(mL), sL, descSet(mU), sU, delta)
+	c.Distinct(mix(mix(mL.Hash(), mU.Hash()), uint64(sL*3+sU)))
+	type mkres struct {
+		name string
+		f    func() *roaring.Bitmap
+	}
+	results := []mkres{
+		{"Or(upper,lower)", func() *roaring.Bitmap { return roaring.Or(mk(mU, sU), mk(mL, sL)) }},
+		{"Or(lower,upper)", func() *roaring.Bitmap { return roaring.Or(mk(mL, sL), mk(mU, sU)) }},
+		{"upper.Or(lower)", func() *roaring.Bitmap { b := mk(mU, sU); b.Or(mk(mL, sL)); return b }},
+		{"lower.Or(upper)", func() *roaring.Bitmap { b := mk(mL, sL); b.Or(mk(mU, sU)); return b }},
+		{"FastOr(upper,lower,upper)", func() *roaring.Bitmap { u := mk(mU, sU); return roaring.FastOr(u, mk(mL, sL), u) }},
+		{"HeapOr(lower,upper)", func() *roaring.Bitmap { return roaring.HeapOr(mk(mL, sL), mk(mU, sU)) }},
+		{"upper.AddRange(lower pieces)", func() *roaring.Bitmap {
+			b := mk(mU, sU)
+			for _, v := range mL.Intervals() {
+				b.AddRange(v.Lo, v.Hi+1)
+			}
+			return b
+		}},
+		{"Xor(upper,lower) (disjoint pieces)", func() *roaring.Bitmap {
+			if delta == 0 {
+				return roaring.Or(mk(mU, sU), mk(mL, sL))
+			}
+			return roaring.Xor(mk(mU, sU), mk(mL, sL))
+		}},
+	}
+	pick := r.Perm(len(results))[:3]
+	for _, i := range pick {
+		if c.Failed() {
+			return
+		}
+		var res *roaring.Bitmap
+		c.Step("result of %s", results[i].name)
+		if c.Guard("results/"+results[i].name, func() { res = results[i].f() }) {
+			return
+		}
+		c.Count("result_via_" + results[i].name)
+		if d := checkEq(res, want); d != "" {
+			c.Fail("results/content", "%s: %s", results[i].name, d)
+			return
+		}
+		countKinds(c, "result_chunk_", res)
+		driveIterator(c, res.Iterator(), want, "Iterator")
+		driveReverse(c, res.ReverseIterator(), want, "ReverseIterator")
+		driveMany(c, res.ManyIterator(), want, "ManyIterator")
+		driveFuncs(c, res, want)
+		driveUnset(c, res, want)
+		// windows that start inside the lower piece and end inside the upper one
+		if !c.Failed() {
+			lo, _ := want.Min()
+			hi, _ := want.Max()
+			c.Guard("Unset/around-the-seam", func() {
+				cur := lo
+				for x := range roaring.Unset(res, uint32(lo), uint32(minU(max32, hi+3))) {
+					nx, has := want.NextAbsent(cur, minU(max32, hi+3))
+					if !has || uint64(x) != nx {
+						c.Fail("Unset/value", "Unset over [%d,%d] of %s yielded %d, want %d (has=%v); set %s", lo, hi+3, results[i].name, x, nx, has, want)
+						return
+					}
+					cur = nx + 1
+				}
+				if nx, has := want.NextAbsent(cur, minU(max32, hi+3)); has && cur <= minU(max32, hi+3) {
+					c.Fail("Unset/omission", "Unset over [%d,%d] of %s ended before %d", lo, hi+3, results[i].name, nx)
+				}
+				c.Eval(1)
+			})
+		}
+	}
+	c.Sample(map[string]any{"unit": "protocols-over-unions-of-adjacent-pieces", "case_seed": c.CaseSeed, "lower": descSet(mL), "upper": descSet(mU), "delta": delta})
 }
